@@ -88,6 +88,9 @@ def node_failures(sp, ctx):
     except Exception:
         # a leaf cannot be materialised on its own: nothing to compare against (C01 reports leaf failures)
         return out + ["leaf-unavailable"]
+    if dt in ("complex64", "float32") and not (np.all(np.isfinite(ref)) and np.max(np.abs(ref), initial=0.0) < 1e30
+                                               and np.all(np.isfinite(M))):
+        return out + ["leaf-unavailable"]        # products of huge leaves leave the single-precision range: nothing to compare
     if ref.shape != M.shape:
         out.append("matrix-shape")
     else:
